@@ -71,7 +71,10 @@ CLAIMED = {
              "CCYY-Www-D, Thh:mm:ss and a literal zone prints the point re-zoned to that zone (bounds error iff the re-zoned year "
              "leaves 0000-9999); C06_dump_literal_zone_roundtrip - that text parses back to a point at the same instant "
              "carrying exactly the literal offset. Precision forms: C06_to_time_zone_rat over exact rationals (tzq op). Other "
-             "literal spellings (+hhmm, +hh, Z in custom formats) and expanded years: dumpzone/tdump correspondence.",
+             "literal spellings (Props/C06c): C06_literal_zone_read_all - +-hh:mm, +-hhmm and +-hh are read as exactly that offset, "
+             "-00:30 / -0030 included; C06_dump_literal_zone_all(_bounds,_roundtrip,_target) - Z and every literal zone in "
+             "every basic and extended complete format (with or without +X): the dumped point carries exactly the requested "
+             "offset and parses back to the same instant.",
         design="DESIGN §8 C06",
         technique="Lean 4 proof (corollary of C01) + model/implementation correspondence"),
     "C11": dict(
@@ -94,7 +97,11 @@ CLAIMED = {
              "modulus modelled with Int.fdiv/fmod), the DST choice, the shape of the three text forms, and the Unix-epoch "
              "conversions (corollaries of C01/C04: instant = epoch + n; seconds_since = instant - epoch) for all n, all "
              "offsets, all modes. The OS zone data are parameters (patched in the harness; exhaustive over every "
-             "whole-minute offset within +-24 h in the thorough tier).",
+             "whole-minute offset within +-24 h in the thorough tier). FRACTIONAL COUNTS (Props/C18b over exact rationals): "
+             "C18_from_unix_rat - for any rational x, UTC or re-zoned, the point has instant = epoch + x exactly, valid, whole "
+             "hour and minute, second in [0, 60); C18_seconds_since_rat - seconds_since_unix_epoch is the difference truncated "
+             "toward zero (not floored: C18_seconds_since_not_floor_counterexample), for every precision form; round trips "
+             "C18_unix_round_trip_*. Ops unixq and sincefrac tie it to the float implementation on dyadic fractions.",
         design="DESIGN §8 C18",
         technique="Lean 4 proof + model/implementation correspondence with the OS zone data patched"),
     "C12": dict(
@@ -142,8 +149,12 @@ CLAIMED = {
              "constructor applied to the anchor moved by x with the same repetitions and interval (C14_shift_nominal_*, "
              "C14_anchor_shift_total), and (r + x) - x == r for exact x (C14_shift_inverse_nominal_*); witnesses that the derived "
              "far bound is re-derived rather than moved. Windows (Props/C14mm): C14_mm_eq_iff (all six components), C14_mm_hash, "
-             "C14_mm_differ_only_in_min/max, C14_mm_shift_iff. The text round trip: see the C14 text theorems if listed in the "
-             "evidence, else the rtext correspondence (one long-lived parser, sibling cases under another calendar mode).",
+             "C14_mm_differ_only_in_min/max, C14_mm_shift_iff. TEXT (Props/C14b over Model/RecText = __str__ and the three "
+             "recurrence regexes with CPython's newline / greedy-split behaviour, then the point and duration parsers and the "
+             "constructor): C14_text_roundtrip - for every recurrence of each notation (bounded, unbounded, single point) with "
+             "valid whole-second points in the year range of C08 and a single-signed integer interval in the domain of C10, "
+             "parse(str r) = r' with r' == r, the same notation and iter r' = iter r for every fuel; per-notation versions give "
+             "r' = r field for field; C09_rec_text_total. Ops rtext (one long-lived parser, mode siblings) and rectext.",
         design="DESIGN §8 C14",
         technique="Lean 4 proof + model/implementation correspondence"),
     "C15": dict(
@@ -167,7 +178,14 @@ CLAIMED = {
              "designator, time of day kept), C20_day_hour_earliest (day designator + hour[:minute[:second]]); idempotence for "
              "all of them (C20_idempotent, C20_day_idempotent); zone alignment (C20_zone). Proved counter-witnesses: minimality "
              "fails for a day designator with minute/second but no hour (known finding F9); two unrelated day designators "
-             "disturb each other and a week alone keeps p's weekday (both outside the property's shapes, recorded).",
+             "disturb each other and a week alone keeps p's weekday (both outside the property's shapes, recorded). EVERY "
+             "PRECISION FORM (Props/C20q over addTruncatedQ on rational-slot points, mirroring the repaired add_truncated): "
+             "C20_ceilSec - the search starts from the least whole second at or after p; C20_time_field_is_ceilSec_run; "
+             "C20_terminates_rat - for every valid p (fractional seconds, decimal minutes / hours, 24:00) the result exists, is "
+             "valid, in p's offset, not earlier than p; C20_matches_rat; C20_earliest_rat_hours/_minutes/_seconds/_day - "
+             "earliest among candidates of any precision form; C20_idempotent_rat; C20_rat_extends_int. Mirroring the code over "
+             "rationals found F18 (the loops never ended for a point inside a second), repaired in /repo; "
+             "C20_fraction_regression keeps the six formerly spinning inputs.",
         design="DESIGN §8 C20",
         technique="Lean 4 proof (loop specification + periodicity by linear arithmetic) + model/implementation correspondence"),
     "C16": dict(
@@ -190,7 +208,16 @@ CLAIMED = {
              "check executes the model's plan through the library API and compares it with the real command run "
              "in-process (stdout / exit), including malformed arguments in every slot; argparse, now, stdin and the "
              "datetime fallbacks are outside the model; 'never a traceback' is observed, not proved. The composed library "
-             "operations themselves are the subject of C01-C18.",
+             "operations themselves are the subject of C01-C18. EVALUATING MODEL (Props/C19b over cliEval : Env -> Args -> "
+             "Except Fail (List Str), composed from the value models incl. date_parse, date_shift, date_diff, date_format, "
+             "format_duration_str, iter_recurrence_str and the recurrence parser; the local zone and repr(n/k) are parameters): "
+             "C19_eval_shift - the line printed is the point plus the signed offsets in order, in the print format if given "
+             "else the format it was parsed with; C19_eval_diff (+ C19_eval_as_total) - str D with first + D at the instant of "
+             "second; C19_eval_recurrence(_format) - the first N points in order through the format; C19_eval_errors_* - every "
+             "component failure is the command's failure, an exit with a message; C19_eval_outcomes - lines, a benign failure, "
+             "or one of exactly two traceback paths (known finding F20 and the unknown calendar name, both with witnesses); "
+             "C19_eval_never_arith. Building this model found F19 (ISO input misread through the lenient strptime fallback), "
+             "repaired in /repo.",
         design="DESIGN §8 C19",
         technique="Lean 4 proof (decision logic stated outright) + plan-execution correspondence against the real CLI"),
     "C09": dict(
@@ -250,7 +277,15 @@ CLAIMED = {
              "the same point with the fraction equal as a number (trailing zeros stripped; an all-zero second fraction "
              "collapses to the whole-second point), and str is a fixpoint. Fractions are digit strings in the model; the "
              "Python's floats are tied by the three-way correspondence (tround, tdump, tdumpf), which also decides custom "
-             "dump formats in other representations (literal +-hh:mm zones are proved under C06).",
+             "dump formats in other representations (literal +-hh:mm zones are proved under C06). CUSTOM FORMATS (Props/C08c, C08d): "
+             "for the class of complete formats - calendar / ordinal / week date, basic or extended, with or without +X; "
+             "hh:mm:ss / hhmmss with optional ,tt / .tt; zone Z, a placeholder +hh:mm / +hhmm / +hh or any literal offset in "
+             "those spellings (36 date-time shapes) - C08_custom_dump: dump p fmt is the specified text of p re-zoned to the "
+             "format's zone and converted to its representation (bounds error iff that year does not fit: "
+             "C08_custom_dump_bounds); C08_custom_parse / C08_custom_roundtrip / C08_custom_equal_instant: the text parses back "
+             "to a point at the same instant carrying the format's zone; C08_custom_*_decimal (C08d) for decimal hour / minute / "
+             "second points dumped in their own precision and zone. Outside: re-zoning a decimal point (float arithmetic; "
+             "op tdumpf), mixed basic/extended notation, the +hh placeholder on an offset with minutes (proved to lose them).",
         design="DESIGN §8 C08, §13",
         technique="Lean 4 proof (symbolic execution of the dumper's rule chain over an opaque digit block + parser refinement, composed through one specified text) over tables regenerated from the source + three-way correspondence"),
     "C10": dict(
@@ -262,7 +297,14 @@ CLAIMED = {
              "and str is a fixpoint; C10_designators(+_weeks) - every designator string decodes to its fields; C10_alt - "
              "the alternative date-time-like spelling (basic and extended, calendar and ordinal) decodes as the designator "
              "spelling; proved counter-witness beyond binary64 (float() in the parser); mixed-sign durations print as "
-             "unparseable text (outside the property, recorded). Decimal components observed only (float repr law).",
+             "unparseable text (outside the property, recorded). DECIMAL COMPONENTS (Props/C10b, model toTextQ / parseQ over "
+             "rational h/m/s, parameterised by reprF = str(float) and readF = float(str) where the Python calls them): under the "
+             "explicit laws FloatText (float(repr(x)) == x, repr's character set, float of a digit string) - hypotheses, not "
+             "axioms; instantiated and proved for the eighths k/8 < 2^17 and kernel-checked on a sample incl. exponent layouts - "
+             "C10_roundtrip_decimal: parse(str d) = d, == both ways, str a fixpoint; C10_decimal_comma_point; "
+             "C10_designators_decimal; C10_str_decimal_shape; C09_duration_text_total / _designator_total / _nomatch_syntax: the "
+             "duration parser is total (no fuel), a matched text gives a duration or a ValueError-class failure. The op "
+             "durtextq ties the model (with an exact model of CPython float()/repr on its domain) to the code.",
         design="DESIGN §8 C10, §13",
         technique="Lean 4 proof (regex matcher semantics over regenerated regex ASTs; digit-string lemmas) + correspondence"),
     "C17": dict(
@@ -274,7 +316,14 @@ CLAIMED = {
              "any other %-letter is a StrftimeSyntaxError in both directions; C17_strptime - for every determining format "
              "strptime(strftime(p)) is a valid point at the same instant (p's own offset and clock fields; local zone for "
              "%s alone), adjacent numeric conversions included; C17_defaults - unnamed parts take their defaults and the "
-             "assumed zone. %s together with %z is outside 'determined' (proved counter-witness, recorded in DESIGN).",
+             "assumed zone. %s together with %z is outside 'determined' (proved counter-witness, recorded in DESIGN). LITERALS "
+             "AND PERCENT SIGNS (Props/C17b over strftime2 = strftime including the final `expression % properties` step, "
+             "modelled as a state machine for CPython's %-formatting): C17_strftime_literals(_general,_bounds) - for formats of "
+             "the 11 directives, %% and arbitrary literal text (no %% directly followed by a word character) the output is "
+             "the POSIX text, %% as one %; C17_percent_posix_counterexample (%%Y is not POSIX: the splitter pairs the second % "
+             "with the letter), C17_strftime_trailing_percent / _stray_percent (bare ValueError, or TypeError after a "
+             "directive); C17_strptime_literals / _literal_exact - the round trip with arbitrary literal text, regex-special "
+             "characters included; C17_strptime_percent_never_round_trips; C17_unix_rat(_round_trip) for %s on decimal forms.",
         design="DESIGN §8 C17, §13",
         technique="Lean 4 proof (refinement of the dumper/parser pipeline to a POSIX specification) over regenerated tables + correspondence"),
     "C03": dict(
@@ -282,7 +331,14 @@ CLAIMED = {
              "preserve the Spec day number (so all round trips are identities), for every year in Int and all four "
              "modes; year-length/range/week-start/weeks-in-year queries equal the Spec closed forms. Tables are "
              "regenerated from the source each run; the hand-written algorithms are tied to data.py by differential "
-             "correspondence (exhaustive over a 400-year cycle in the thorough tier).",
+             "correspondence (exhaustive over a 400-year cycle in the thorough tier). REGENERATED ALGORITHMS (Props/C03algo): "
+             "harness/gen_algo.py translates 24 functions - get_is_leap_year, get_days_in_year(_range), get_days_in_month, "
+             "get_weeks_in_year, the week-start routines, iter_months_days, the six conversions, get_days_since_1_ad and "
+             "timezone.get_local_time_zone - from the Python AST into lean/IsoDT/Gen/Algo.lean on every run (loops as "
+             "structural / well-founded recursion; anything outside its subset is a TranslateError), and C03_algo_<name> "
+             "proves each generated definition equal to the hand-written model for every mode and every integer argument "
+             "(month-length lookups: months 1..12, with the exact behaviour outside stated). A semantic edit of one of these "
+             "functions changes Gen/Algo.lean and breaks its equality theorem; renaming locals or reordering tests does not.",
         design="DESIGN §8 C03",
         technique="Lean 4 proof over regenerated tables + model/implementation correspondence"),
 }
